@@ -96,6 +96,14 @@ CORPUS = ["0x7FFFFFFFFFFFFFFFF", "[NUMBER:abc]", "[TIME:abc]", "[MONEY:12]", "[T
           "2 km + 3 km =", "10 usd to try =", "1 hour 30 minutes =", "5 kg to g =", "3 hours = x", "1 hour = 5", "10% of 50 =", "12:30 EST =",
           # a zone abbreviation that no time rule consumes, behind a binary operator
           "5 + cat 4", "x = 3 * EST 4", "3 + EST", "10 usd - get 3 usd", "8 PM - CET 2 hours", "EST 4", "2 * (EST)", "1 - - PST",
+          # operand kinds in the "wrong" order and other rarely taken interpreter / rule branches (found by a coverage run of
+          # all generators over the crate: every line below reaches code no other case reached)
+          "2 * 10 usd", "100 - 10 usd", "100 / 10 usd", "3 * 5 km", "100 - 5 km", "10 / 2 km", "10 * 5%", "10% * 2%", "10% - 3%",
+          "10% / 2%", "10% + 5", "5 usd + +3 usd", "-(3 km)", "5 km + -(2 km)", "12:30 as minutes", "12:30 as hours", "23:59:59 as seconds",
+          "12:30 as days", "12:30 as weeks", "12:30 as months", "23:00 as years", "10 usd/hour", "5%/day", "20/person", "p = 10%\np/unit",
+          "x = 1600000000 to date\nx + 2 hours\nx - 1 day\nx to EST\n-x\nx * 2", "d = 5 jan 2020\nd to EST\n-d\nd + d\n5 + -d",
+          "t = 12:30\n-t\n5 + -t\nt * 2\nt + t", "m = march\nm\n5 m 2020\nm 5, 2020", "k = 3 km\n-k\n2 * k\nk * k\nk / k",
+          "u = 10 usd\n-u\n+u\n3 - +u\nu * u", "q = 2 hours\n-q\nq * 2\n2 * q\nq / 2",
           # suffix, detached-sign and percent interplay
           "1,5k", "2,0625k + 1", "- %10", "200 + -%10", "200 - - 10%"]
 
